@@ -39,9 +39,13 @@ def _clone_subgraph(sg, suffix, si):
   return c
 
 
+# the sharing population is built from constant-consuming operators
+SHARE_OPS = ['FULLY_CONNECTED'] * 4 + ['EMBEDDING_LOOKUP', 'BATCH_MATMUL', 'CONV_2D', 'ADD', 'MUL', 'TANH', 'RESHAPE']
+
+
 @st.composite
 def cases(draw, tier):
-  kind = draw(st.sampled_from(['independent', 'independent', 'sharing', 'twins']))
+  kind = draw(st.sampled_from(['independent', 'independent', 'sharing', 'sharing', 'twins']))
   if kind == 'twins':
     m = draw(G.model_specs(max_nodes=6, min_nodes=2, max_subgraphs=1))
     sg0 = m['subgraphs'][0]
@@ -49,11 +53,20 @@ def cases(draw, tier):
     m['subgraphs'].append(_clone_subgraph(sg0, '_twin', 1))
     mspec = m
   else:
-    mspec = draw(G.model_specs(max_nodes=8 if tier == 'thorough' else 5, min_nodes=1,
+    mspec = draw(G.model_specs(max_nodes=8 if tier == 'thorough' else 5, min_nodes=2 if kind == 'sharing' else 1,
                                max_subgraphs=3, min_subgraphs=2, share_buffers=(kind == 'sharing'),
-                               share_odds=1, dim_choices=[2, 4] if kind == 'sharing' else None))
+                               # tied tensors with different numbers of consumers per function
+                               reuse_const=(kind == 'sharing'), reuse_odds=draw(st.integers(0, 1)) if kind == 'sharing' else 1,
+                               **({'ops': SHARE_OPS, 'force_fam': 2, 'fc_plain': True} if kind == 'sharing' else {}),
+                               share_odds=draw(st.integers(0, 1)) if kind == 'sharing' else 1, dim_choices=[2, 4] if kind == 'sharing' else None))
   names = engine.op_out_names(mspec)
-  if draw(st.integers(0, 2)) == 0:
+  if kind == 'sharing' and draw(st.booleans()):
+    # one treatment for every op, so that tied weights are compatible and the
+    # request is accepted: mostly the modes that insert a DEQUANTIZE per tensor
+    algo, c = draw(st.sampled_from(R.FLOAT_COMPUTE_CFGS + [(R.MINMAX, R.WO8), (R.MINMAX, R.WO4_S),
+                                                          (R.FLOATCAST, R.FP16), (R.FLOATCAST, R.FP16)]))
+    recipe = {'kind': 'rules', 'rules': [R.rule('.*', '*', algo, dict(c))]}
+  elif draw(st.integers(0, 2)) == 0:
     recipe = {'kind': 'shipped', 'name': draw(st.sampled_from(engine.SHIPPED_NAMES))}
   else:
     recipe = {'kind': 'rules', 'rules': draw(R.rules_for(
